@@ -22,7 +22,8 @@ def load_checks() -> dict[str, dict]:
     for f in sorted((VERIF / "harness" / "props").glob("c[0-9]*.py")):
         mod = importlib.import_module(f"harness.props.{f.stem}")
         m = getattr(mod, "MANIFEST", None)
-        if m:
+        # a check is claimed only when its theorem file exists
+        if m and (VERIF / "lean" / "Props" / f"{f.stem.upper()}.lean").exists():
             out[f.stem.upper()] = m
     return out
 
